@@ -285,7 +285,7 @@ func run(r *vx.Run) int {
 	if r.Replay != "" {
 		return replay(r)
 	}
-	budget := 150 * time.Second
+	budget := 300 * time.Second // ~30 s on an idle 16-core machine; generous because the machine is shared
 	if r.Thorough() {
 		budget = 17 * time.Minute
 	}
